@@ -412,28 +412,32 @@ def stage_outputs_and_text_layer(replay=None):
     Rectangle.undefine_epsilon()
     n0 = Netlist(base)
     st0 = deep_state(n0)
-    res = {"A": [(2.0, 2.0, 3.0, 2.0)], "B": [(5.5, 2.5, 2.0, 1.0), (5.5, 3.5, 1.0, 1.0)]}
-    t1 = rio.solution_to_netlist(n0, res)
-    t2 = rio.solution_to_netlist(n0, res)
-    evals += 1
-    if t1 != t2 or deep_state(n0) != st0:
-        failures.append(dict(clause="rect.producing_twice_identical_and_object_unaltered"))
-    try:
-        Rectangle.undefine_epsilon()
-        n1 = Netlist(t1)
-        nontriv += 1
-        want = [([m.name for m in e.modules], e.weight) for e in n0.edges]
-        got = [([m.name for m in e.modules], e.weight) for e in n1.edges]
-        if got != want:
-            failures.append(dict(clause="rect.same_nets_and_weights", want=want, got=got))
-        kinds = [(m.name, m.is_soft, m.is_fixed, m.is_hard, None if m.is_hard else m.area()) for m in n0.modules]
-        if kinds != [(m.name, m.is_soft, m.is_fixed, m.is_hard, None if m.is_hard else m.area()) for m in n1.modules]:
-            failures.append(dict(clause="rect.same_modules_and_kinds"))
-        shapes = {m.name: sorted((r.center.x, r.center.y, r.shape.w, r.shape.h) for r in m.rectangles) for m in n1.modules}
-        if shapes["A"] != sorted(res["A"]) or shapes["B"] != sorted(res["B"]) or shapes["H"] != [(2.0, 6.0, 2.0, 2.0)]:
-            failures.append(dict(clause="rect.same_shapes", shapes=shapes))
-    except Exception as e:  # noqa
-        failures.append(dict(clause="rect.document_accepted_by_the_reader", observed=f"{type(e).__name__}: {e}", text=t1[:400]))
+    # solutions with few decimals, with thirds / sevenths / eight decimals, and with a large coordinate carrying sub-unit detail (after the open seed
+    # r8-C19-1: coordinates written with six decimals)
+    for res in [{"A": [(2.0, 2.0, 3.0, 2.0)], "B": [(5.5, 2.5, 2.0, 1.0), (5.5, 3.5, 1.0, 1.0)]},
+                {"A": [(7 / 3, 2.0, 10 / 3, 1.23456789)], "B": [(5.5, 2.5, 2.0, 1.0), (5.5, 3.0 + 1 / 7, 1.0, 2 / 7)]},
+                {"A": [(2000000.0000005, 2.0, 3.0, 2.0)], "B": [(5.5, 2.5, 2.0, 1.0), (5.5, 3.5, 1.0, 1.0)]}]:
+        t1 = rio.solution_to_netlist(n0, res)
+        t2 = rio.solution_to_netlist(n0, res)
+        evals += 1
+        if t1 != t2 or deep_state(n0) != st0:
+            failures.append(dict(clause="rect.producing_twice_identical_and_object_unaltered"))
+        try:
+            Rectangle.undefine_epsilon()
+            n1 = Netlist(t1)
+            nontriv += 1
+            want = [([m.name for m in e.modules], e.weight) for e in n0.edges]
+            got = [([m.name for m in e.modules], e.weight) for e in n1.edges]
+            if got != want:
+                failures.append(dict(clause="rect.same_nets_and_weights", want=want, got=got))
+            kinds = [(m.name, m.is_soft, m.is_fixed, m.is_hard, None if m.is_hard else m.area()) for m in n0.modules]
+            if kinds != [(m.name, m.is_soft, m.is_fixed, m.is_hard, None if m.is_hard else m.area()) for m in n1.modules]:
+                failures.append(dict(clause="rect.same_modules_and_kinds"))
+            shapes = {m.name: sorted((r.center.x, r.center.y, r.shape.w, r.shape.h) for r in m.rectangles) for m in n1.modules}
+            if shapes["A"] != sorted(res["A"]) or shapes["B"] != sorted(res["B"]) or shapes["H"] != [(2.0, 6.0, 2.0, 2.0)]:
+                failures.append(dict(clause="rect.same_shapes", shapes=shapes))
+        except Exception as e:  # noqa
+            failures.append(dict(clause="rect.document_accepted_by_the_reader", observed=f"{type(e).__name__}: {e}", text=t1[:400]))
     # rect_io.get_netlist(None, allocation): netlist derived from an allocation
     alloc_txt = "[[[1, 1, 2, 2], {A: 0.5, B: 0.25}], [[3, 1, 2, 2], {A: 1.0}], [[1, 3, 2, 2], {B: 0.5}]]"
     evals += 1
